@@ -93,7 +93,10 @@ def rule_a(ctx):
         ok = len(aggs) == 1
         if ok:
             fo = dict(zip(aggs[0].node["r"]["fields"], aggs[0].node["r"]["ops"]))
-            ok = cb.origins(fo["capacity"], aggs[0]) == frozenset([("arg", 1)])
+            ok = "capacity" in fo and "is_open" in fo and cb.origins(fo["capacity"], aggs[0]) == frozenset([("arg", 1)])
+            if not ok:
+                ctx.ob("buffer|ctor|%s" % nm, False, "%s must store the requested capacity in the buffer's `capacity` field" % nm, aggs)
+                continue
             io = cb.origins(fo["is_open"], aggs[0])
             st = [Site(cb, x[1], TERM) for x in io if x[0] == "call"]
             ok = ok and len(st) == 1 and st[0].args()[0].get("v") is want
